@@ -46,6 +46,9 @@ def run(ctx: Context) -> None:
     from ..persist import Plumbing
     from . import c04
     ctx.rule(c04.r2_tables, Plumbing(ctx.prog))
+    # "counted over its whole life ... across checkpoint restores": the batch counter comes back from a checkpoint as itself
+    from . import c18
+    ctx.rule(c18.restored_records_identity, (), ("current_batch_index",))
     before = len(ctx.undecided)
     # the sampler of batch k is the one the agent chose *for batch k*: which action a batch consumes must not depend on thread timing,
     # and only the first batch may bypass the agent (families shared with C10's product analysis)
